@@ -30,3 +30,22 @@ def wf_probe(tag: str, n: int = 2) -> list:
     vals = [t.wf.random() for _ in range(n)]
     WF_LOG.append((tag, t.invocation.workflow.workflow_id, vals))
     return vals
+
+
+# ---- C02: a body that records entry/exit and offers yield points --------------------------------
+def c02_body(x: int) -> int:
+    from harness.props import c02 as _c02
+    from pynenc import context
+
+    app = context.get_current_app()
+    inv = context.get_dist_invocation_context(app.app_id)
+    import threading
+
+    _c02.BODY_LOG.append(("enter", inv.invocation_id, threading.get_ident()))
+    # a few scheduler-visible steps inside the body (source lines for the in-memory scheduler,
+    # SQL statements for the SQLite one)
+    app.orchestrator.get_invocation_status(inv.invocation_id)
+    y = x + 1
+    app.orchestrator.get_invocation_status(inv.invocation_id)
+    _c02.BODY_LOG.append(("exit", inv.invocation_id, threading.get_ident()))
+    return y
